@@ -31,10 +31,15 @@ def profile(rng):
 
 def build(seed):
     rng = subseed(seed, 'universe')
-    u = U.generate(rng, profile(rng))
+    prof = profile(rng)
+    rerelease = subseed(seed, 'rerelease').random() < 0.25
+    if rerelease:
+        prof['p_rerelease'] = 0.7
+    u = U.generate(rng, prof)
     prng = subseed(seed, 'plan')
     swarm = {'routes': prng.random() < 0.6, 'batch': prng.random() < 0.3, 'short_reads': False,
-             'external': prng.random() < 0.1, 'style': prng.random() < 0.5}
+             'external': prng.random() < 0.1, 'style': prng.random() < 0.5,
+             'rerelease': rerelease}
     plan = [op for op in P.history(prng, u, prng.randint(4, 9), swarm)
             if op['op'] != 'checkpoint']
     if prng.random() < 0.3:
